@@ -175,7 +175,9 @@ Fiemap ==
                                   /\ (s \in split \/ \E r \in Runs : r[1] = s)
                                   /\ (e \in split \/ \E r \in Runs : r[2] = e)
                                   /\ \A c \in split : ~(s < c /\ c < e) }
-                IN exts' = Merge(<<>>, SortRuns(pieces)) /\ mapped' = "yes"
+                \* merge_extents bridges a gap of exactly ONE BYTE; in cell units that is a one-cell gap only when a cell is a
+                \* byte, so both outcomes are behaviours of the code (which one occurs depends on the cell size of the run)
+                IN exts' \in {Merge(<<>>, SortRuns(pieces)), SortRuns(pieces)} /\ mapped' = "yes"
          ELSE exts' = <<<<0, len>>>> /\ mapped' = "no"    \* map_extents() = None: whole file
   /\ pc' = "queue"
   /\ Fixed /\ UNCHANGED <<dst, dalloc, pos, segEnd, cur, want, jobs, result, clones, cloneAns, dataOps>>
